@@ -764,7 +764,7 @@ func c01SQL(c *kit.Ctx, m *storeModel, r6 *kit.Rule) {
 	// writers: INSERT column list / args / upsert
 	for _, w := range m.writers {
 		f := w.F
-		info := f.Info()
+		_ = f.Info()
 		st := w.Exec.Stmts[0]
 		cols := st.Cols
 		oT := r6.Ob(f, w.Exec.Prepared.Call, w.Table+": INSERT column list", "INSERT names every column of the table")
@@ -775,60 +775,13 @@ func c01SQL(c *kit.Ctx, m *storeModel, r6 *kit.Rule) {
 			oT.OK("%v", cols)
 		}
 		oA := r6.Ob(f, w.Exec.Call, w.Table+": bound arguments", "argument i is the like-named field of the point being written (time as UnixNano, id from the id slice)")
-		rs, _ := f.Enclosing(w.Exec.Call, func(n ast.Node) bool { _, ok := n.(*ast.RangeStmt); return ok }).(*ast.RangeStmt)
-		var wpt types.Object
-		if rs != nil && rs.Value != nil {
-			wpt = kit.ObjOf(info, rs.Value)
-		}
-		bad := ""
-		if len(w.Exec.Args) != len(cols) {
-			bad = "Exec binds " + strconv.Itoa(len(w.Exec.Args)) + " arguments for " + strconv.Itoa(len(cols)) + " columns"
-		}
-		for i := 0; bad == "" && i < len(cols); i++ {
-			col, arg := cols[i], w.Exec.Args[i]
-			fld, isPt := pointFields[col]
-			sel, isSel := ast.Unparen(arg).(*ast.SelectorExpr)
-			switch {
-			case col == "time":
-				lo := kit.ObjOf(info, arg)
-				okT := false
-				ast.Inspect(rs.Body, func(n ast.Node) bool {
-					if a2, ok := n.(*ast.AssignStmt); ok && len(a2.Lhs) == 1 && len(a2.Rhs) == 1 && kit.ObjOf(info, a2.Lhs[0]) == lo {
-						if cl, ok := ast.Unparen(a2.Rhs[0]).(*ast.CallExpr); ok && kit.CallIs(info, cl, "time.(Time).UnixNano") {
-							if s2, ok := ast.Unparen(cl.Fun).(*ast.SelectorExpr); ok {
-								if s3, ok := ast.Unparen(s2.X).(*ast.SelectorExpr); ok && s3.Sel.Name == "Time" && kit.ObjOf(info, s3.X) == wpt {
-									okT = true
-								}
-							}
-						}
-					}
-					return true
-				})
-				if cl, ok := ast.Unparen(arg).(*ast.CallExpr); ok && kit.CallIs(info, cl, "time.(Time).UnixNano") {
-					okT = true
-				}
-				if !okT {
-					bad = "column time is not bound to <point>.Time.UnixNano()"
-				}
-			case isPt:
-				if !isSel || sel.Sel.Name != fld || kit.ObjOf(info, sel.X) != wpt {
-					bad = "column " + col + " is bound to `" + f.Str(arg) + "`, expected " + fld + " of the written point"
-				}
-			case col == "id":
-				// checked by the merge loop model (wids)
-			case col == "node_id" || col == "edge_id":
-				if isSel && kit.ObjOf(info, sel.X) == wpt {
-					bad = "column " + col + " is bound to a field of the point"
-				}
-			}
-		}
-		if bad != "" {
+		if bad := boundArgsProblem(c, w, pointFields, nil); bad != "" {
 			oA.Violation("%s", bad)
 		} else {
 			oA.OK("%d arguments in column order", len(cols))
 		}
 		oU := r6.Ob(f, w.Exec.Prepared.Call, w.Table+": upsert list", "ON CONFLICT DO UPDATE sets every column except the ids to its own placeholder")
-		bad = ""
+		bad := ""
 		set := map[string]string{}
 		for _, kv := range st.Upsert {
 			set[kv[0]] = kv[1]
@@ -882,4 +835,86 @@ func ordinalOf(f *kit.Func, call *ast.CallExpr, rows types.Object) string {
 		return ""
 	}
 	return " #" + strconv.Itoa(n+1)
+}
+
+// boundArgsProblem checks that the prepared INSERT binds, column by column,
+// the unmodified like-named field of the point being written (time through
+// UnixNano).  only restricts the check to the given columns (nil = all).
+func boundArgsProblem(c *kit.Ctx, w *pointWriter, pointFields map[string]string, only map[string]bool) string {
+	f := w.F
+	info := f.Info()
+	cols := w.Exec.Stmts[0].Cols
+	rs, _ := f.Enclosing(w.Exec.Call, func(n ast.Node) bool { _, ok := n.(*ast.RangeStmt); return ok }).(*ast.RangeStmt)
+	var wpt types.Object
+	if rs != nil && rs.Value != nil {
+		wpt = kit.ObjOf(info, rs.Value)
+	}
+	if rs == nil || wpt == nil {
+		return "the INSERT Exec is not inside a range loop over the points to write"
+	}
+	bad := ""
+	if len(w.Exec.Args) != len(cols) {
+		return "Exec binds " + strconv.Itoa(len(w.Exec.Args)) + " arguments for " + strconv.Itoa(len(cols)) + " columns"
+	}
+	for i := 0; bad == "" && i < len(cols); i++ {
+		col, arg := cols[i], w.Exec.Args[i]
+		if only != nil && !only[col] {
+			continue
+		}
+		fld, isPt := pointFields[col]
+		sel, isSel := ast.Unparen(arg).(*ast.SelectorExpr)
+		switch {
+		case col == "time":
+			lo := kit.ObjOf(info, arg)
+			okT := false
+			ast.Inspect(rs.Body, func(n ast.Node) bool {
+				if a2, ok := n.(*ast.AssignStmt); ok && len(a2.Lhs) == 1 && len(a2.Rhs) == 1 && lo != nil && kit.ObjOf(info, a2.Lhs[0]) == lo {
+					if cl, ok := ast.Unparen(a2.Rhs[0]).(*ast.CallExpr); ok && kit.CallIs(info, cl, "time.(Time).UnixNano") {
+						if s2, ok := ast.Unparen(cl.Fun).(*ast.SelectorExpr); ok {
+							if s3, ok := ast.Unparen(s2.X).(*ast.SelectorExpr); ok && s3.Sel.Name == "Time" && kit.ObjOf(info, s3.X) == wpt {
+								okT = true
+							}
+						}
+					}
+				}
+				return true
+			})
+			if cl, ok := ast.Unparen(arg).(*ast.CallExpr); ok && kit.CallIs(info, cl, "time.(Time).UnixNano") {
+				if s2, ok := ast.Unparen(cl.Fun).(*ast.SelectorExpr); ok {
+					if s3, ok := ast.Unparen(s2.X).(*ast.SelectorExpr); ok && s3.Sel.Name == "Time" && kit.ObjOf(info, s3.X) == wpt {
+						okT = true
+					}
+				}
+			}
+			if !okT {
+				bad = "column time is not bound to <point>.Time.UnixNano()"
+			}
+		case isPt:
+			if !isSel || sel.Sel.Name != fld || kit.ObjOf(info, sel.X) != wpt {
+				bad = "column " + col + " is bound to `" + f.Str(arg) + "`, expected the unmodified field " + fld + " of the written point"
+			}
+		case col == "id":
+			// checked by the merge loop model (wids)
+		case col == "node_id" || col == "edge_id":
+			if isSel && kit.ObjOf(info, sel.X) == wpt {
+				bad = "column " + col + " is bound to a field of the point"
+			}
+		}
+	}
+	// the written point must not be modified between the queue and the bind
+	if bad == "" {
+		ast.Inspect(rs.Body, func(n ast.Node) bool {
+			if as, ok := n.(*ast.AssignStmt); ok {
+				for _, l := range as.Lhs {
+					if s2, ok := ast.Unparen(l).(*ast.SelectorExpr); ok && kit.ObjOf(info, s2.X) == wpt {
+						if fn, isPt := map[string]bool{"Time": true, "Type": true, "Key": true, "Text": true, "Value": true, "Data": true, "Tombstone": true, "Origin": true}[s2.Sel.Name]; isPt && fn {
+							bad = "the point's field " + s2.Sel.Name + " is modified in the write loop, after the merge decided on (and hashed) the incoming value"
+						}
+					}
+				}
+			}
+			return true
+		})
+	}
+	return bad
 }
